@@ -21,6 +21,13 @@ CHECKS = {
              "reachable content x every action (mutators, item-or-key reads, |,&,-,^,<=,<,>=,>,==,isdisjoint,|=,&=,-=,^= against KeyedSet and built-in set operands) "
              "is executed on the real KeyedSet in 4 item flavours x typed x enforce, plus random histories over 10 keys; TLC judges every event. Exhaustive in the bound.",
         note=TB, technique="TLA+ spec + TLC model checking; spec->code replay of every (state, action); TLC-judged traces", ref="3 C14"),
+    "C12": dict(
+        text="TLC model-checks SpecProperty.tla (all 16 option combinations x {plain, spec-class unmanaged, spec-class managed+preparer} hosts; single dict slot vs "
+             "declarative ghost (override, cache-since-last-deletion); invariant Slot, action properties Priority/Assign/Delete/Typed) and ClassProperty.tla (32 "
+             "configurations over Base<-Mid<-Leaf; Isolation/NoCache/Read). All access paths of length 4 (thorough 5; classproperty 3/4) over the model's action "
+             "alphabet plus random longer paths are replayed through the real descriptors; TLC re-runs the model along each observed path and judges every access. "
+             "The protocol state graphs are tiny, so all-paths replay decides the history dependence completely up to the path bound.",
+        note=TB, technique="TLA+ spec + TLC model checking; exhaustive path replay through the real descriptor; TLC trace validation", ref="3 C12"),
 }
 
 PENDING = "check not built yet in this round (see DESIGN.md section 3 for the planned TLA+ module)"
